@@ -134,6 +134,10 @@ def run(ctx):
     acc, nev = validate_traces(ctx, "ConcConnTrace", CONN_CFG, traces, describe, tag="conn", timeout=3000)
     ctx.log("connection histories: %d of %d accepted (%d events)" % (acc, len(traces), nev))
     ctx.cov["traces"] = len(traces)
+    ctx.cov["traces_validated_against_impl"] = acc
+    ctx.sample({"schedule of two calls on one sm4 cipher object (replayed through the gates)": scheds[len(scheds) // 2]["sched"]})
+    if traces:
+        ctx.sample({"history": descr[0], "first events": traces[0][1:9]})
     ctx.cov["evaluations"] = nops + res.get("schedules", 0) + nev
     ctx.cov["schedules"] = len(scheds)
     ctx.cov["distinct_nontrivial"] = len(scheds)
